@@ -121,9 +121,30 @@ Funcs == {[fam |-> "func", body |-> [b |-> "ret", v |-> v]] : v \in {IntV(4), Nu
 BackStruct == [k |-> "struct", A |-> I(7), B |-> <<120>>, c |-> I(2), F |-> Half, Any |-> S!GX([x |-> "str", s |-> <<97>>]), Hid |-> I(3)]
 Backs == {[fam |-> "back", isptr |-> p, ty |-> ty, src |-> BackStruct] : p \in BOOLEAN, ty \in {"ptr", "struct", "iface"}}
 
-AllCases == Params \cup Arities \cup Rets \cup Funcs \cup Backs
+(* element writes of the boundary values of every integer width into []K, [2]K, map[string]K:        *)
+(* min - 1, min, max, max + 1, 2^w - 1, 2^w (doubles only: for the 64-bit kinds the neighbours that   *)
+(* exist), 0, -1, fractions of both signs, NaN                                                        *)
+BoundaryOf(k) ==
+    LET w == S!Bits(k) IN
+    {I(0), I(-1), OneHalf, S!NumNeg(OneHalf), S!NaN, S!NZero}
+    \cup (IF w < 64 THEN {S!LoOf(k), S!HiOf(k), S!NumSub(S!LoOf(k), I(1)), S!NumAdd(S!HiOf(k), I(1)), P2(w), S!NumSub(P2(w), I(1)), S!NumNeg(P2(w))}
+          ELSE {ZSub(63, 1024), P2(63), S!NumNeg(P2(63)), S!NumNeg(ZAdd(63, 2048)), ZSub(64, 2048), P2(64), ZAdd(64, 4096), ZSub(53, 1), P2(53)})
+ElemWs == {[fam |-> "elemw", cont |-> c, k |-> k, v |-> NumV(n)] : c \in {"slice", "array", "map"}, k \in S!IntKinds, n \in UNION {BoundaryOf(kk) : kk \in S!IntKinds}}
+ElemWsOK == {c \in ElemWs : c.v.n \in BoundaryOf(c.k)}
 
-Js(c) == CASE c.fam = "param" -> JsParts(c.v)
+(* a nested struct / array / element of a *Doc handed to a Go function taking a pointer (Bridge!DocPtrCall) *)
+In1 == [Tags |-> <<S!GStr(<<105>>)>>, Sizes |-> <<S!GInt("int8", I(7))>>, N |-> I(1)]
+In2 == [Tags |-> <<S!GStr(<<112>>), S!GStr(<<113>>)>>, Sizes |-> <<>>, N |-> I(2)]
+Doc0 == [k |-> "doc", Title |-> <<116>>, Tags |-> <<S!GStr(<<97>>), S!GStr(U_smile)>>,
+         Sizes |-> <<S!GInt("int8", I(1)), S!GInt("int8", I(2)), S!GInt("int8", I(-128))>>,
+         Any |-> <<S!GX([x |-> "num", n |-> I(1)]), S!GX([x |-> "str", s |-> <<120>>])>>,
+         In |-> In1, PIn |-> In2, Arr |-> <<S!GInt("int8", I(1)), S!GInt("int8", I(2))>>,
+         SIn |-> <<In2>>, AIn |-> <<In1, In2>>, Grid |-> <<<<S!GInt("int8", I(1))>>, <<S!GInt("int8", I(2)), S!GInt("int8", I(3))>>>>]
+PFields == {[fam |-> "pfield", where |-> w, sel |-> sel, d |-> Doc0] : w \in {"ptr", "inslice", "inmap"}, sel \in {"In", "PIn", "Arr", "SIn0", "AIn0"}}
+
+AllCases == Params \cup Arities \cup Rets \cup Funcs \cup Backs \cup ElemWsOK \cup PFields
+
+Js(c) == CASE c.fam \in {"param", "elemw"} -> JsParts(c.v)
            [] c.fam = "arity" -> JsItems(c.args, 1)
            [] c.fam = "func" -> (IF c.body.b = "ret" THEN <<"(function(x){ SEEN = OBS(x); return ">> \o JsParts(c.body.v) \o <<"; })">>
                                  ELSE IF c.body.b = "throw" THEN <<"(function(x){ SEEN = OBS(x); throw new " \o c.body.cls \o "('z'); })">>
@@ -137,12 +158,16 @@ ExpectS(c) ==
       [] c.fam = "func" -> IF c.body.b = "notfn" THEN S!ConvertParam(c.body.v, TK("int")) \* not a function: no conversion to func(int) int exists
                            ELSE S!FuncParamCall(c.body)
       [] c.fam = "back" -> S!BridgedToParam(c.isptr, c.src, c.ty)
+      [] c.fam = "elemw" -> (LET r == S!ElemWriteOutcome(c.v, c.k, S!GInt(c.k, I(1))) IN [thr |-> r.thr, elem |-> r.elem, js |-> S!ElemJS(r.elem)])
+      [] c.fam = "pfield" -> (LET r == S!DocPtrCall(c.d, c.sel) IN [thr |-> r.thr, same |-> r.same, js |-> S!PlacedJS(c.where, r.d), go |-> r.d])
 ExpectL(c) ==
     CASE c.fam = "param" -> L!ConvertParam(c.v, c.ty)
       [] c.fam = "arity" -> L!ConvertArgs(c.args, c.sig)
       [] c.fam = "ret" -> [js |-> L!ReturnJS(c.outs)]
       [] c.fam = "func" -> IF c.body.b = "notfn" THEN L!ConvertParam(c.body.v, TK("int")) ELSE L!FuncParamCall(c.body)
       [] c.fam = "back" -> L!BridgedToParam(c.isptr, c.src, c.ty)
+      [] c.fam = "elemw" -> (LET r == L!ElemWriteOutcome(c.v, c.k, S!GInt(c.k, I(1))) IN [thr |-> r.thr, elem |-> r.elem, js |-> S!ElemJS(r.elem)])
+      [] c.fam = "pfield" -> (LET r == L!DocPtrCall(c.d, c.sel) IN [thr |-> r.thr, same |-> r.same, js |-> S!PlacedJS(c.where, r.d), go |-> r.d])
 FixFunc(c, r) == IF c.fam = "func" /\ c.body.b = "notfn" THEN [thr |-> "TypeError"] ELSE r
 
 K == 64
